@@ -40,8 +40,14 @@ type Case struct {
 }
 
 var hashes = []crypto.Hash{crypto.MD5, crypto.SHA1, crypto.SHA224, crypto.SHA256, crypto.SHA384, crypto.SHA512, crypto.SHA512_256, crypto.SHA3_256, crypto.SHA3_512}
-var xofs = []func() sha3.ShakeHash{sha3.NewShake128, sha3.NewShake256, func() sha3.ShakeHash { return sha3.NewCShake128(nil, nil) }, func() sha3.ShakeHash { return sha3.NewCShake256(nil, nil) }}
-var xofNames = []string{"SHAKE128", "SHAKE256", "cSHAKE128(empty)", "cSHAKE256(empty)"}
+var xofs = []func() sha3.ShakeHash{sha3.NewShake128, sha3.NewShake256, func() sha3.ShakeHash { return sha3.NewCShake128(nil, nil) }, func() sha3.ShakeHash { return sha3.NewCShake256(nil, nil) },
+	// customised cSHAKE instances are XOFs of their own: every step of the expansion (the reduction of an over-long DST
+	// included) is defined over the XOF the caller supplied, customisation and all
+	func() sha3.ShakeHash { return sha3.NewCShake128(nil, []byte("customisation string")) },
+	func() sha3.ShakeHash { return sha3.NewCShake256([]byte("fn"), nil) },
+	func() sha3.ShakeHash { return sha3.NewCShake128([]byte("function"), []byte("and customisation")) },
+	func() sha3.ShakeHash { return sha3.NewCShake256(nil, bytes.Repeat([]byte{0x5c}, 200)) }}
+var xofNames = []string{"SHAKE128", "SHAKE256", "cSHAKE128(empty)", "cSHAKE256(empty)", "cSHAKE128(S)", "cSHAKE256(N)", "cSHAKE128(N,S)", "cSHAKE256(long S)"}
 
 func xmd(r *mon.Run, c Case) {
 	hf := hashes[c.Hash]
@@ -163,7 +169,10 @@ func suites(r *mon.Run, c Case) {
 			r.Violate("h2c/Ristretto255_XMD_R255MAP_RO/point", fmt.Sprintf("%v", hf), c)
 		}
 	}
-	for xi, mk := range xofs[:2] {
+	for xi, mk := range []func() sha3.ShakeHash{xofs[0], xofs[1], xofs[4], xofs[5]} {
+		if xi >= 2 {
+			xi += 2
+		}
 		nx := func() ref.XOF { return mk() }
 		u96, _ := ref.ExpandXOF(nx, msg, dst, 96)
 		u48, _ := ref.ExpandXOF(nx, msg, dst, 48)
@@ -228,7 +237,7 @@ func pipeHalves(rng *rand.Rand) [][]byte {
 	var out [][]byte
 	cat := mapCatalogue()
 	specials := []*big.Int{cat[0], cat[2], cat[3]} // 0, 1, -1
-	specials = append(specials, cat[20:]...)        // +-sqrt(-1) and the exceptional roots
+	specials = append(specials, cat[20:]...)       // +-sqrt(-1) and the exceptional roots
 	for _, u := range specials {
 		out = append(out, be48(u), be48(new(big.Int).Add(u, ref.P)))
 		hi := new(big.Int).Add(u, new(big.Int).Mul(kmax, ref.P))
